@@ -237,6 +237,11 @@ class Scenario:
                 return env.cer(host=s.host, acct=(), auth=(0xffffffff,), hbh=hbh, e2e=e2e)
             if var == "nohost":
                 return env.cer(host=s.host, acct=napps_acct, auth=napps_auth, hbh=hbh, e2e=e2e, with_origin_host=False)
+            if var == "badip":      # acceptable CER whose Host-IP-Address cannot be decoded (IPv4 family, 3 octets)
+                good = env.cer(host=s.host, acct=napps_acct, auth=napps_auth, hbh=hbh, e2e=e2e)
+                f = rc.Frame(good)
+                avps = [rc.enc_avp(c, (b"\x00\x01\x0a\x00\x00" if c == 257 else p), fl, v) for c, fl, v, p in f.avps]
+                return rc.enc_msg(env.CMD_CER, R, 0, hbh, e2e, avps)
             raise sk.HarnessError(name)
         if name.startswith("cea"):
             if s.kind != "dialled" or s.cea_sent:
@@ -266,6 +271,20 @@ class Scenario:
         hbh, e2e = 0x1000 * (s.idx + 1) + s.nreq, 0x2000 * (s.idx + 1) + s.nreq
         if name == "dwr":
             d = env.dwr(host=host, hbh=hbh, e2e=e2e)
+        elif name == "dwr_e2e0":
+            d = env.dwr(host=host, hbh=hbh, e2e=0)
+        elif name == "dwr_hbh0":
+            d = env.dwr(host=host, hbh=0, e2e=e2e)
+        elif name == "req_e2e0":
+            d = env.acr(host=host, hbh=hbh, e2e=0)
+        elif name == "ans_T_replay":
+            # an *answer* carrying the T flag and the identifiers of a request the node has already answered
+            s.nreq -= 1
+            done = [f for f in s.inreq if f.h.code == env.CMD_DWR]
+            if not done:
+                return None
+            f = done[-1]
+            return rc.enc_msg(env.CMD_DWR, T, 0, f.h.hbh, f.h.e2e, [rc.u32(268, 2001), rc.octets(264, host.encode()), rc.octets(296, b"example.org")])
         elif name == "dpr":
             d = env.dpr(host=host, hbh=hbh, e2e=e2e)
         elif name in ("dwa", "dwa_nohost", "dwa_norc", "dpa", "ans", "ans_unknown", "ans_dup", "ans_nohost", "ans_norc"):
